@@ -270,7 +270,8 @@ def space_iter(space, k):
 _EMPTY_OBS = {}
 
 
-PHASE_NAMES = ["main", "stage_1", "main-2", "a b", "1st", "if", "it's", "Main", "aux_0"]
+# "m|x": the enumerated phase is called m and the third phase x (two names that are equal once mangled into identifiers)
+PHASE_NAMES = ["main", "stage_1", "main-2", "a b", "1st", "if", "it's", "Main", "aux_0", "a-b|a_b", "a b|a.b", "x|_x"]
 
 
 def describe(shape, main_name=None):
@@ -280,9 +281,18 @@ def describe(shape, main_name=None):
         shape = shape[1:]
     body = expand(shape)
     m = main_name or "main"
+    x = "aux"
+    if "|" in m:
+        m, x = m.split("|")
     if m != "main":
         body = body + [["IF", ["s", "<p>a > 40"], [["SW", m]], None]]
-    return [("init", INIT, m), (m, body, "aux"), ("aux", AUX, m)]
+    if x != "aux":
+        def ren(ops):
+            return [["SW", x] if op == ["SW", "aux"] else
+                    ["IF", op[1], ren(op[2]), ren(op[3]) if op[3] is not None else None] if op[0] == "IF" else op
+                    for op in ops]
+        body = ren(body)
+    return [("init", INIT, m), (m, body, x), (x, AUX, m)]
 
 
 def check_description(shape, acc=None):
